@@ -85,6 +85,29 @@ theorem collectBlock_length (base : Nat) (ls : List Line) :
       · simp
       · simp; omega
 
+/-! ### `_collect_block` on RAW lines (W21): what the function does to the strings it is handed, before any classification -/
+
+/-- Python `s.strip()` (the six ASCII blanks) -/
+def strip (s : List Char) : List Char := rstrip (s.dropWhile isSpace)
+
+/-- `not line.strip()`: the line consists of blanks only -/
+def isBlankLine (s : List Char) : Bool := s.all isSpace
+
+/-- `collectBlock` at the level of raw lines: blankness is `not line.strip()`, the indentation is `_indent_of(line)`; nothing else
+    of a line is looked at.  Returns (block, rest). -/
+def collectBlockRaw (base : Nat) : List (List Char) → List (List Char) × List (List Char)
+  | [] => ([], [])
+  | l :: rest =>
+    if isBlankLine l then let (b, r) := collectBlockRaw base rest; (l :: b, r)
+    else if indentOf l ≤ base then ([], l :: rest)
+    else let (b, r) := collectBlockRaw base rest; (l :: b, r)
+
+/-- `_collect_block(lines, start)` with its own calling convention: the header is `lines[start]`, the result is the block and the
+    index of the first line after it.  (`lines[start]` out of range raises IndexError in Python; here it reads as the empty line.) -/
+def collectBlockAt (lines : List (List Char)) (start : Nat) : List (List Char) × Nat :=
+  let r := collectBlockRaw (indentOf (lines.getD start [])) (lines.drop (start + 1))
+  (r.1, start + 1 + r.1.length)
+
 /-- nested dispatch (`_parse_simple_lines`): headers are recognised on the comment-stripped line; the `elif`/`else`/
     `except` continuation of a chain is probed on the RAW stripped line, so a trailing comment hides it; lines are
     consumed sequentially whatever their indentation -/
